@@ -428,7 +428,13 @@ func runWorkloadIn(in wlInput, scratch []byte) (out []byte) {
 		num, decs, n5 := strconv.ParseNumber(d, sep[0], sep[1])
 		t.add("ParseNumber", num, decs, n5)
 		call()
-		t.add("AppendInt", strconv.AppendInt(nil, i64))
+		ai := strconv.AppendInt(nil, i64)
+		t.add("AppendInt", ai)
+		// the caller reuses the buffer it was given for the next number, as with any append-style API
+		ai = strconv.AppendInt(ai[:0], int64(in.opt)-32)
+		t.add("AppendInt-reused", ai)
+		call()
+		t.add("AppendInt-again", strconv.AppendInt(nil, i64), strconv.AppendInt(nil, -9223372036854775808), strconv.AppendInt(nil, 9223372036854775807))
 		call()
 		t.add("AppendFloat", strconv.AppendFloat(nil, f, in.opt%9))
 		call()
@@ -625,7 +631,7 @@ func runWorkloadIn(in wlInput, scratch []byte) (out []byte) {
 		t.add("second", int(z2.Peek(0)), z2.Err())
 	case wlIndenter:
 		w := &yieldWriter{}
-		ind := parse.NewIndenter(w, 1+in.opt%4)
+		ind := parse.NewIndenter(w, []int{1, 2, 3, 4, 8, 70, 100, 300}[in.opt%8])
 		for _, part := range bytes.SplitAfter(d, []byte(" ")) {
 			call()
 			ind.Write(part)
